@@ -100,7 +100,9 @@ Definition check_corr (c : case) : bool :=
    unsigned) are outside the property and only compared with the model. *)
 Definition check_spec (c : case) : bool :=
   match c with
-  | CHist total ops obs => Nat.eqb (length ops) (length obs) && forallb obs_safe obs
+  | CHist total ops obs =>
+      Nat.eqb (length ops) (length obs) && forallb obs_safe obs
+      && forallb (fun o => zsum (ho_caps o) <=? total) obs      (* the defined slots fit into the instrument *)
   | CPlace h r cp t nh nl impl _ =>
       match impl with
       | IRet w a i => negb (forallb (fun x => 0 <=? x) r) ||
